@@ -193,6 +193,17 @@ def run(ck, facts, tier, only=None):
                      "rust/dual/dual_ops/convert.rs", sample="value, gradient and variable names kept")
 
     run_state_rules(ck, facts, tier, hk)
+    # "a quote that is already a dual keeps its own variables": the constructor stores the quote list it was given, unchanged (C09 R09.1)
+    if not getattr(ck, "_c10_c09_nested", False):
+        ck._c10_c09_nested = True
+        try:
+            from rules import c09 as c09m
+            nd9, tb9 = list(ck.not_decided), list(ck.trusted)
+            with ck.restrict({"R09.1"}):
+                c09m.run(ck, facts, tier)
+            ck.not_decided[:], ck.trusted[:] = nd9, tb9
+        finally:
+            ck._c10_c09_nested = False
     # sensitivities are produced by the AD operator rules applied along the chain typing: their exactness is a necessary condition here too
     from rules import deps
     deps.include_ad(ck, facts, tier)
